@@ -82,14 +82,20 @@ def genPer : Per :=
 
 def dinit : DState := (DState.absorb ⟨empty genPer, 0, 0, 0⟩ (init genPer))
 
-def counters (ds : DState) (c05 : Bool) (log : List Ev) : String :=
+/-- the release of a block without element slots (the table of a hash container) is printed `Ft<b>`: the comparison does not fix
+    its position inside the op (it concerns no element); `pre` = the state before the op -/
+def evStr (pre : State) (log : List Ev) : Ev → String
+  | .free b => if pre.blk b == some 0 || log.any (fun e => e == .alloc b 0) then s!"Ft{b}" else s!"F{b}"
+  | e => e.str
+
+def counters (pre : State) (ds : DState) (c05 : Bool) (log : List Ev) : String :=
   if c05 then
     -- assignments to container-held objects and copy constructions from container-held objects during this op
     let nas := count (fun e => match e with | .assign .. => true | _ => false) log
     let ncp := count (fun e => match e with | .ctor _ (some .ext) => false | .ctor _ (some _) => true | _ => false) log
     s!" # u=0 dd=0 ov=0 as={nas} cp={ncp}"
   else s!" # c={ds.c} d={ds.d} live={ds.c - ds.d} u=0 dd=0 ov=0 b={ds.b} t=0 # " ++
-    (if log.isEmpty then "-" else " ".intercalate (log.map Ev.str))
+    (if log.isEmpty then "-" else " ".intercalate (log.map (evStr pre log)))
 
 def posArg (s : String) : Option (Option Nat) := s.toNat?.map some
 
@@ -191,7 +197,7 @@ def stepLine (c05 : Bool) (ds : DState) (ws : List String) : DState × String :=
     | none => (dinit, "FAULT")
     | some st1 =>
       let ds1 := ds.absorb st1
-      let out := "end" ++ counters ds1 c05 st1.log
+      let out := "end" ++ counters ds.st ds1 c05 st1.log
       match execAll ds1.st createAll with
       | none => (dinit, "FAULT")
       | some st2 => (ds1.absorb st2, out)
@@ -212,7 +218,7 @@ def stepLine (c05 : Bool) (ds : DState) (ws : List String) : DState × String :=
           | .fault => (dinit, "FAULT")
           | .ok st' =>
             let ds' := ds.absorb st'
-            let out := k.letter ++ " " ++ showVar st' c05 ⟨k, 0⟩ ++ " | " ++ showVar st' c05 ⟨k, 1⟩ ++ counters ds' c05 st'.log
+            let out := k.letter ++ " " ++ showVar st' c05 ⟨k, 0⟩ ++ " | " ++ showVar st' c05 ⟨k, 1⟩ ++ counters ds.st ds' c05 st'.log
             (ds', out)
     | _, _ => (ds, "bad-op")
   | [] => (ds, "bad-op")
